@@ -215,6 +215,14 @@ def fingerprint(quals):
             res[q] = hashlib.sha256(src.encode()).hexdigest()[:16]
         except Exception as e:  # missing function = changed
             res[q] = f"missing:{type(e).__name__}"
+    # … and the whole source of every module a listed function lives in: a change anywhere in an anchored
+    # module (a helper, a constant, a new method) also sends the quick tier through the thorough generator
+    for modname in sorted({q.partition(":")[0] for q in quals}):
+        try:
+            src = inspect.getsource(importlib.import_module(modname))
+            res["module:" + modname] = hashlib.sha256(src.encode()).hexdigest()[:16]
+        except Exception as e:
+            res["module:" + modname] = f"missing:{type(e).__name__}"
     return res
 
 
